@@ -5242,3 +5242,22 @@ T('C18', 'twin-intended-recipient-one-shared-call', PGP, _IR,
   "                recipient_fpr = intended_recipient.fingerprint\n            elif isinstance(intended_recipient, Fingerprint):\n                recipient_fpr = intended_recipient\n            else:\n                warnings.warn(\"Intended Recipient is not a PGPKey, ignoring\")\n                continue\n\n            sig._signature.subpackets.addnew('IntendedRecipient', hashed=True, version=4,\n                                             intended_recipient=recipient_fpr)\n")
 M('C18', 'intended-recipient-shared-call-one-arm-derived', PGP, _IR,
   "                recipient_fpr = (intended_recipient.parent or intended_recipient).fingerprint\n            elif isinstance(intended_recipient, Fingerprint):\n                recipient_fpr = intended_recipient\n            else:\n                warnings.warn(\"Intended Recipient is not a PGPKey, ignoring\")\n                continue\n\n            sig._signature.subpackets.addnew('IntendedRecipient', hashed=True, version=4,\n                                             intended_recipient=recipient_fpr)\n", 'C18.7')
+
+# =============================================================================================== C18 wave 6 (w5 seeded shapes, twin C18-ref19)
+_PUBKEY_BODY = ("        pk = PubKeyV4() if not isinstance(self, PrivSubKeyV4) else PubSubKeyV4()\n        pk.created = self.created\n        pk.pkalg = self.pkalg\n\n        # copy over MPIs\n        for pm in self.keymaterial.__pubfields__:\n            setattr(pk.keymaterial, pm, copy.copy(getattr(self.keymaterial, pm)))\n\n        if self.pkalg in {PubKeyAlgorithm.ECDSA, PubKeyAlgorithm.EdDSA}:\n            pk.keymaterial.oid = self.keymaterial.oid\n\n        if self.pkalg == PubKeyAlgorithm.ECDH:\n            pk.keymaterial.oid = self.keymaterial.oid\n            pk.keymaterial.kdf = copy.copy(self.keymaterial.kdf)\n\n        pk.update_hlen()\n        return pk\n")
+_HELPER = ("\n    def _copy_public_half_to(self, pk):\n        pk.created = %s\n        pk.pkalg = self.pkalg\n        src, dst = self.keymaterial, pk.keymaterial\n        for pm in src.__pubfields__:\n            setattr(dst, pm, copy.copy(getattr(src, pm)))\n        if self.pkalg in {PubKeyAlgorithm.ECDSA, PubKeyAlgorithm.EdDSA, PubKeyAlgorithm.ECDH}:\n            dst.oid = src.oid\n        if self.pkalg == PubKeyAlgorithm.ECDH:\n            dst.kdf = copy.copy(src.kdf)\n        return pk\n")
+_NEWBODY = "        twin = PubSubKeyV4 if isinstance(self, PrivSubKeyV4) else PubKeyV4\n        pk = self._copy_public_half_to(twin())\n        pk.update_hlen()\n        return pk\n"
+T('C18', 'twin-pubkey-body-in-new-base-method', PK, _PUBKEY_BODY, _NEWBODY + _HELPER % 'self.created')
+M('C18', 'pubkey-new-base-method-created-of-target', PK, _PUBKEY_BODY, _NEWBODY + _HELPER % 'pk.created', 'C18')
+M('C18', 'table-drops-algorithm-20', PK, "            (True, PubKeyAlgorithm.FormerlyElGamalEncryptOrSign): ElGPub,\n", "", 'C18.3',
+  more=[(PK, "            (False, PubKeyAlgorithm.FormerlyElGamalEncryptOrSign): ElGPriv,\n", "")])
+M('C18', 'table-drops-private-eddsa-only', PK, "            (False, PubKeyAlgorithm.EdDSA): EdDSAPriv,\n", "", 'C18.3')
+T('C18', 'twin-created-readers-temporaries', PK, "        self.created = datetime.fromtimestamp(val, timezone.utc)", "        seconds = val\n        when = datetime.fromtimestamp(seconds, tz=timezone.utc)\n        self.created = when",
+  more=[(PK, "    def created_bin(self, val):\n        self.created = self.bytes_to_int(val)", "    def created_bin(self, val):\n        seconds = self.bytes_to_int(val)\n        self.created = seconds")])
+M('C18', 'created-future-time-clamped-to-now', PK, "        self.created = datetime.fromtimestamp(val, timezone.utc)",
+  "        created = datetime.fromtimestamp(val, timezone.utc)\n        now = datetime.now(timezone.utc)\n        if created > now:\n            created = now\n        self.created = created", 'C18.5')
+M('C18', 'created-zero-defaults-to-now', PK, "        self.created = datetime.fromtimestamp(val, timezone.utc)", "        self.created = datetime.fromtimestamp(val, timezone.utc) if val else datetime.now(timezone.utc)", 'C18.5')
+M('C18', 'created-read-as-local-time', PK, "        self.created = datetime.fromtimestamp(val, timezone.utc)", "        self.created = datetime.fromtimestamp(val)", 'C18.5')
+M('C18', 'created-octets-little-endian', PK, "    def created_bin(self, val):\n        self.created = self.bytes_to_int(val)", "    def created_bin(self, val):\n        self.created = self.bytes_to_int(val, 'little')", 'C18.5')
+M('C18', 'created-datetime-truncated-to-day', PK, "            warnings.warn(\"Passing TZ-naive datetime object to PubKeyV4 packet\")\n        self._created = val", "            warnings.warn(\"Passing TZ-naive datetime object to PubKeyV4 packet\")\n        self._created = val.replace(hour=0, minute=0, second=0)", 'C18.5')
+M('C18', 'fp-length-from-header-for-public', PK, "        plen = self.keymaterial.publen()\n        bcde_len = self.int_to_bytes(6 + plen, 2)", "        plen = self.keymaterial.publen()\n        bcde_len = self.int_to_bytes(self.header.length if self.public else 6 + plen, 2)", 'C18.1')
